@@ -330,6 +330,8 @@ func main() {
 		"at block depth 0..3 chosen per edge); part 1 bounded-exhaustive: every digraph on n<=3 nodes x every kind assignment over {const,var,func,type}, "+
 		"every digraph on 4 nodes x 2 (quick) kind assignments [thorough: x 6, and every digraph on 5 nodes x 1 assignment, direct oracle on all (3 repetitions), model on a 1/64 sample; quick: model on every second 4-node input]; "+
 		"part 2 PRNG graphs with 5..12 declarations incl. methods, self references, package/import clauses and statements between declaration runs; "+
+		"struct types (declared, or anonymous inside initialisers and function bodies) get int fields NAMED LIKE DECLARATIONS of the input and keyed struct literals use them as keys (not references); "+
+		"identifier keys of map/array literals are references (only generated next to another reference to the same name: known finding C17-3); the reference analysis asks go/types whether a key is a field name; "+
 		"part 3 corpus. Excluded classes (known findings): a local/parameter named like a declaration (F1); a reference from scope depth>=2 "+
 		"(function declaration signature/body, nested block or struct) to a name declared earlier in the text (F2). "+
 		"non-trivial = at least one dependency edge; distinct by SHA-256 of the source. Every input is sorted 5x (quick) / 20x (thorough).")
@@ -433,6 +435,8 @@ func main() {
 	}
 	r.cw.Close()
 	rep.Extra["exhaustive_inputs"] = nExh
+	rep.Extra["identifier_keys_of_composite_literals"] = map[string]int{"field_names": keyTotals.FieldKeys, "expressions": keyTotals.ExprKeys,
+		"decided_by_go/types": keyTotals.ByTypes, "decided_by_type_expression_shape": keyTotals.BySyntax, "undecided(counted as field name)": keyTotals.Undecided}
 	rep.Extra["excluded_by_known_finding_class_F2"] = excluded
 	rep.Extra["repetitions_per_input"] = r.reps
 	rep.Exhaustive = false
